@@ -1527,6 +1527,47 @@ impl Gen<'_> {
         out.push(shout(call(&h, vec![plain("top")])));
         out.push(shout(call(&k, vec![])));
         if self.rng.chance(1, 2) {
+            // straight after a call of the outer `h`, a block that defines its own `h` and calls it
+            // before that definition: the call belongs to the block's `h`
+            let tag_blk = self.str_lit();
+            let def_blk = mk(&h, vec![p.clone()], vec![Stmt::Return(Some(bin(BinOp::Add, tag_blk, var(&p))))]);
+            out.push(shout(call(&h, vec![plain("pre")])));
+            let inner_stmts = vec![shout(call(&h, vec![plain("blk")])), def_blk, shout(call(&h, vec![plain("blk2")]))];
+            match self.rng.weighted(&[3, 2, 2]) {
+                0 => out.push(Stmt::Block(Block { stmts: inner_stmts })),
+                1 => out.push(Stmt::If { cond: Expr::Bool(true), then_b: Block { stmts: inner_stmts }, else_b: None }),
+                _ => {
+                    let f = self.fresh_name("w");
+                    let mut b = inner_stmts;
+                    b.push(Stmt::Return(Some(num(0))));
+                    out.push(mk(&f, vec![], b));
+                    out.push(shout(call(&h, vec![plain("pre2")])));
+                    out.push(Stmt::Expr(call(&f, vec![])));
+                }
+            }
+            out.push(shout(call(&h, vec![plain("post")])));
+        }
+        if self.rng.chance(1, 2) {
+            // a parameter shadowed by a `make` of the same name in the body: a nested function
+            // defined before that `make` keeps reading (and assigning) the parameter
+            let (f, g2, n) = (self.fresh_name("w"), self.fresh_name("w"), self.fresh_name("p"));
+            let reads = mk(&g2, vec![], vec![
+                Stmt::Assign { name: n.clone(), value: bin(BinOp::Add, var(&n), plain("+")), decl: u32::MAX },
+                Stmt::Return(Some(var(&n))),
+            ]);
+            let body = vec![
+                reads,
+                shout(call(&g2, vec![])),
+                Stmt::Make { name: n.clone(), init: Some(self.str_lit()), decl: u32::MAX },
+                shout(var(&n)),
+                shout(call(&g2, vec![])),
+                shout(var(&n)),
+                Stmt::Return(Some(num(0))),
+            ];
+            out.push(mk(&f, vec![n.clone()], body));
+            out.push(Stmt::Expr(call(&f, vec![self.str_lit()])));
+        }
+        if self.rng.chance(1, 2) {
             // a function whose body defines another function under its own name: a call of that
             // name in the body reaches the inner one (no recursion), from outside the outer one
             let ss = self.fresh_name("w");
